@@ -97,7 +97,7 @@ fn oracle_c14(l: &mut Ledger, v: &mut StepView) -> Option<(String, String)> {
                     let r = &refm.frames[*id as usize];
                     let how = if r.doc.is_some() { "a chunk embedding" } else if r.supersedes.is_some() { "an embedding given to / carried by update_frame" } else { "an embedding" };
                     let sig = match v.op {
-                        Op::Crash => "wal-replay-drops-embeddings-while-vec-manifest-not-on-disk",
+                        Op::Crash if !obs.vec_enabled => "wal-replay-drops-embeddings-while-vec-manifest-not-on-disk",
                         Op::Doctor { .. } => "doctor-rebuild-vec-empties-index",
                         Op::CommitSkip => "skip-index-commit-drops-embeddings",
                         _ => "active-embedded-frame-missing-from-vec-index",
